@@ -1,9 +1,9 @@
 //! C12 — import sets bind exactly the names the import-set algebra yields.
 use crate::runner::{Ctx, Report};
-use crate::sut::{self, guarded, SVal, Session};
+use crate::sut::{self, guarded, Outcome, SVal, Session};
 use ruschm::interpreter::LibraryFactory;
 use ruschm::library_name;
-use ruschm::parser::LibraryName;
+use ruschm::parser::{LibraryName, LibraryNameElement};
 use ruschm::values::{Number, Value};
 
 #[derive(Clone, Debug, PartialEq)]
@@ -35,6 +35,27 @@ pub fn model(t: &Term) -> Bindings {
                 None => (n, v),
             })
             .collect(),
+    }
+}
+
+/// the same term with its identifier lists and renaming pairs written in another order (0 = as generated,
+/// 1 = reversed, 2 = rotated by one): the order in which they are written must not matter
+pub fn render_order(t: &Term, order: usize) -> String {
+    fn perm<T: Clone>(v: &[T], order: usize) -> Vec<T> {
+        let mut w = v.to_vec();
+        match order {
+            1 => w.reverse(),
+            2 if !w.is_empty() => w.rotate_left(1),
+            _ => {}
+        }
+        w
+    }
+    match t {
+        Term::Lib => "(t lib)".to_string(),
+        Term::Only(i, ids) => format!("(only {}{})", render_order(i, order), perm(ids, order).iter().map(|s| format!(" {}", s)).collect::<String>()),
+        Term::Except(i, ids) => format!("(except {}{})", render_order(i, order), perm(ids, order).iter().map(|s| format!(" {}", s)).collect::<String>()),
+        Term::Prefix(i, p) => format!("(prefix {} {})", render_order(i, order), p),
+        Term::Rename(i, ps) => format!("(rename {}{})", render_order(i, order), perm(ps, order).iter().map(|(a, b)| format!(" ({} {})", a, b)).collect::<String>()),
     }
 }
 
@@ -88,7 +109,7 @@ pub fn extensions(t: &Term) -> Vec<Term> {
         out.push(Term::Only(Box::new(t.clone()), ids.clone()));
         out.push(Term::Except(Box::new(t.clone()), ids));
     }
-    for p in ["p:", "q-"] {
+    for p in ["p:", "q-", "P:"] {
         out.push(Term::Prefix(Box::new(t.clone()), p.to_string()));
     }
     // renamings of one or two names; targets from the available names and two fresh ones; result names distinct
@@ -98,6 +119,12 @@ pub fn extensions(t: &Term) -> Vec<Term> {
     // a target that looks like a prefixed name, so that prefix / only / except meet names that collide textually
     if !targets.contains(&"p:a".to_string()) {
         targets.push("p:a".into());
+    }
+    // targets that differ from an available name only in letter case
+    for up in ["A", "B"] {
+        if !targets.contains(&up.to_string()) {
+            targets.push(up.into());
+        }
     }
     let admissible = |pairs: &Vec<(String, String)>| -> bool {
         let res = model(&Term::Rename(Box::new(t.clone()), pairs.clone()));
@@ -193,7 +220,9 @@ pub fn judge(terms: &[&Term]) -> Report {
     // determinism: several fresh threads (independent hash seeds)
     let mut first: Option<Vec<(String, SVal)>> = None;
     for round in 0..3 {
-        match observe(decl.clone()) {
+        // each run writes the identifier lists of only / except / rename in a different order
+        let decl_r = format!("(import {})", terms.iter().map(|t| render_order(t, round)).collect::<Vec<_>>().join(" "));
+        match observe(decl_r.clone()) {
             Err(sig) => {
                 rep.fail(sig.clone(), format!("import failed: {}", sig));
                 return rep;
@@ -218,11 +247,60 @@ pub fn judge(terms: &[&Term]) -> Report {
                     }
                     first = Some(got);
                 } else if Some(&got) != first.as_ref() {
-                    rep.fail("import-nondeterministic", format!("run {} differs from run 0", round));
+                    let sig = if decl_r == decl { "import-nondeterministic" } else { "import-depends-on-written-order" };
+                    rep.fail(sig, format!("run {} `{}` differs from run 0", round, decl_r));
                     return rep;
                 }
             }
         }
+    }
+    rep
+}
+
+/// several import declarations on one interpreter: a later declaration rebinds a name even when the new value is
+/// `=`/`equal?`-like the old one (1/2 and 0.5, two closures of one lambda)
+fn second_declaration_cases() -> Vec<(Vec<&'static str>, &'static str)> {
+    vec![
+        (vec!["(import (scheme base) (t twins))", "(import (rename (t twins) (x y) (y x) (p q) (q p)))"], "(0.5 1/2 2 1)"),
+        (vec!["(import (scheme base) (rename (t twins) (x y) (y x) (p q) (q p)))", "(import (t twins))"], "(1/2 0.5 1 2)"),
+        (vec!["(import (scheme base) (only (t twins) x p) (rename (only (t twins) y q) (y yy) (q qq)))", "(import (rename (only (t twins) y q) (y x) (q p)) (rename (only (t twins) x p) (x y) (p q)))"], "(0.5 1/2 2 1)"),
+        (vec!["(import (scheme base) (t twins))", "(import (t twins))", "(import (prefix (t twins) z:))"], "(1/2 0.5 1 2)"),
+        (vec!["(import (scheme base))", "(import (t twins))", "(import (rename (t twins) (x y) (y x)))"], "(0.5 1/2 1 2)"),
+    ]
+}
+
+fn judge_second_declaration(decls: &[&str], expected: &str) -> Report {
+    let text = format!("{}\n(list x y (p) (q))", decls.join("\n"));
+    let mut rep = Report::new(text);
+    rep.nontrivial = true;
+    rep.label("several-declarations");
+    let decls: Vec<String> = decls.iter().map(|d| d.to_string()).collect();
+    let o = sut::in_thread(move || {
+        let mut s = match Session::bare() {
+            Ok(s) => s,
+            Err((site, msg)) => return Outcome::Panic { site, msg },
+        };
+        let lib = "(define-library (t twins) (import (scheme base)) (export x y p q) (begin (define x 1/2) (define y 0.5) (define (mk k) (lambda () k)) (define p (mk 1)) (define q (mk 2))))";
+        match LibraryFactory::from_char_stream(&LibraryName(vec![LibraryNameElement::Identifier("t".into()), LibraryNameElement::Identifier("twins".into())]), lib.chars()) {
+            Ok(f) => s.it.register_library_factory(f),
+            Err(_) => return Outcome::NoValue,
+        }
+        for d in &decls {
+            if let o @ (Outcome::Error(_) | Outcome::Panic { .. }) = s.eval(d) {
+                return o;
+            }
+        }
+        match s.eval_display("(list x y (p) (q))") {
+            Ok(Some(t)) => Outcome::Value(SVal::Str(t)),
+            Ok(None) => Outcome::NoValue,
+            Err(e) => Outcome::Value(SVal::Str(format!("error: {}", e))),
+        }
+    });
+    rep.note = o.show();
+    match &o {
+        Outcome::Value(SVal::Str(t)) if t == expected => {}
+        Outcome::Panic { site, msg } => rep.fail(sut::panic_sig(site, msg), "import panicked"),
+        other => rep.fail("later-declaration-does-not-rebind", format!("expected {}, got {}", expected, other.show())),
     }
     rep
 }
@@ -232,11 +310,20 @@ pub fn run(ctx: &Ctx) {
         "import-set terms over a native 4-export library (a b c d with distinct values), enumerated exhaustively up to \
          nesting depth 2 (thorough 3, strided): only/except with every subset of the names available at that point, rename \
          with every admissible renaming of one or two names (targets among the available names and two fresh ones, incl. \
-         swaps and chains), prefix with two prefixes; plus declarations with two import sets. Each declaration is evaluated \
+         swaps and chains, targets differing from an available name only in letter case), prefix with three prefixes \
+         (two differing only in case); several declarations on one interpreter rebinding names to values that are = / \
+         equal?-like the old ones (1/2 and 0.5, two closures of one lambda); plus declarations with two import sets. Each declaration is evaluated \
          on three fresh interpreters in fresh threads (independent hash seeds) with an empty root frame, whose bindings \
-         afterwards must be exactly the model's (names and values) and identical across runs. Non-trivial = depth >= 2 with \
+         afterwards must be exactly the model's (names and values) and identical across runs; the three runs write the \
+         identifier lists and renaming pairs in three different orders (as enumerated, reversed, rotated). Non-trivial = depth >= 2 with \
          two different operators, a swap/chain renaming, or two import sets.",
     );
+    let cases = second_declaration_cases();
+    let keys: Vec<String> = (0..cases.len()).map(|i| i.to_string()).collect();
+    ctx.texts("several-declarations", &keys, |k| {
+        let (d, e) = &cases[k.parse::<usize>().unwrap()];
+        judge_second_declaration(d, e)
+    });
     let depth_max = ctx.tier.pick(2, 3);
     let terms = all_terms(depth_max);
     ctx.note(format!("{} terms up to depth {}", terms.len(), depth_max));
